@@ -147,7 +147,8 @@ def np_trapz(interp, y, x=None, dx=1.0, axis=-1):
     x = _arr(x, interp)
     A.require_dim_eq(x.shape[0], n, "trapz-shape")
     xr = x.reader()
-    return trapz_spec(lambda k: yr((k,)), lambda k: xr((k,)), n)
+    res = trapz_spec(lambda k: yr((k,)), lambda k: xr((k,)), n)
+    return sv.to_real(res) if is_conc(res) else res          # an empty sum (one sample point) is the float 0.0
 
 
 def np_delete(interp, a, obj, axis=None):
@@ -259,10 +260,11 @@ def symbolic_minmax(a, which):
     frees = free_consts(body, exclude=[m])
     ph = [_placeholder(c.sort(), i) for i, c in enumerate(frees)]
     canon = z3.substitute(body, (m, VAR0), *zip(frees, ph)) if frees else z3.substitute(body, (m, VAR0))
-    key = (which, canon.sexpr(), tuple(str(p.sort()) for p in ph))
+    isint = a.dtype in ("int", "bool")       # the extremum of an integer array is an integer (usable as a dimension / index)
+    key = (which, isint, canon.sexpr(), tuple(str(p.sort()) for p in ph))
     if key not in _MM:
         k = len(_MM)
-        _MM[key] = (z3.Function(f"{which.upper()}{k}", z3.IntSort(), *[p.sort() for p in ph], z3.RealSort()),
+        _MM[key] = (z3.Function(f"{which.upper()}{k}", z3.IntSort(), *[p.sort() for p in ph], z3.IntSort() if isint else z3.RealSort()),
                     z3.Function(f"ARG{which.upper()}{k}", z3.IntSort(), *[p.sort() for p in ph], z3.IntSort()))
     vf, wf = _MM[key]
     val = SV(vf(sv.znum(n), *frees))
